@@ -173,8 +173,8 @@ impl Property for C13 {
     }
     fn cases(&self, tier: Tier) -> u64 {
         match tier {
-            Tier::Quick => 60_000,
-            Tier::Thorough => 800_000,
+            Tier::Quick => 200_000,
+            Tier::Thorough => 2_000_000,
         }
     }
     fn required_labels(&self, _tier: Tier) -> Vec<&'static str> {
